@@ -506,7 +506,6 @@ func TestFlagWithDeferredCleanupIsPathExact(t *testing.T) {
 	}
 }
 
-
 func TestLiteralTableIsUnrolled(t *testing.T) {
 	p := loadTest(t)
 	v := p.Expand(fn(t, p, "Table"), ExpandOpt{Key: "t", Stop: leaf})
